@@ -198,6 +198,10 @@ def run(repo, rep, tier):
     from .c07 import _Relabel
     _pd(repo, _Relabel(rep, "R-C10-9"))
     _pl(repo, _Relabel(rep, "R-C10-9"))
+    rep.rule("R-C10-11", "no hidden absolute tolerance: np.isclose / allclose / math.isclose on a density-derived value against a constant (default atol 1e-8) is a "
+                         "comparison with a non-zero absolute constant - the decision changes when the spectrum is scaled")
+    from .round7b import hidden_tolerance
+    hidden_tolerance(repo, rep, "R-C10-11", ("wavespectra.core.npstats", "wavespectra.core.xrstats", "wavespectra.specarray"))
     rep.rule("R-C10-10", "constant offsets that meet the stored direction coordinate additively are floats (NumPy 2 promotion: a Python int adopts the "
                          "dtype of integer direction labels; unsigned labels then wrap instead of rotating)")
     from .round7 import int_meets_direction
